@@ -124,6 +124,10 @@ class SmtSys:
         _, op, form = ev
         m2, v = self.model_step(model, op)
         pre_db = snap[1]
+        if "C14" in self.props:
+            v = self._probe_same(t, model, "before_event")
+            if v:
+                return Step(None, model, [v])
         try:
             ret = self.apply(t, op, form)
         except Exception as e:  # noqa
@@ -138,6 +142,9 @@ class SmtSys:
             if form == "m" and (not isinstance(ret, tuple) or tuple(ret) != path):
                 viols.append(V("C14", "returned_hashes_wrong", "set/delete did not return the updated path hashes root-to-leaf", event=op[0], key=op[1],
                                model=m2))
+            v_same = self._probe_same(t, m2, "after_event_same_object")
+            if v_same:
+                viols.append(v_same)
             for k_, v_ in pre_db.items():
                 if t.db.get(k_) != v_:
                     viols.append(V("C14", "db_entry_changed", "an existing database entry was removed or changed", event=op[0]))
@@ -192,7 +199,20 @@ class SmtSys:
         return Step(post, m2, viols)
 
     def _p(self, preferred):
-        return preferred if preferred in self.props else sorted(self.props)[0]
+        return preferred if preferred in self.props or not self.props else sorted(self.props)[0]
+
+    def _probe_same(self, t, m, where):
+        for k in self.keys:
+            val = self.ref.val(m, k)
+            try:
+                got = t.get(k)
+            except KeyError:
+                got = b""
+            except Exception as e:  # noqa
+                return V("C14", "read_raised", f"get({k.hex()}) raised {type(e).__name__}", key=k, where=where, model=m)
+            if got != val:
+                return V("C14", "read_wrong", "get does not reflect the last value written (or the default)", key=k, got=got, want=val, where=where, model=m)
+        return None
 
     def proof_in_sync(self, p, m, root, where):
         viols = []
